@@ -1141,21 +1141,36 @@ PROBE = [True]
 
 def is_zero(p):
     """identically zero modulo the relations of pow atoms.  The relation test is sound for "zero" and exact for polynomials; with root atoms
-    it is incomplete (it does not know (a b)**e == a**e b**e for positive a, b).  A "not zero" verdict on an expression with root atoms
-    is therefore probed numerically (80 digits, several generic points): if the expression vanishes at every point where it can be
-    evaluated, the verdict is withdrawn (Undecided) instead of being reported as a difference"""
+    it is incomplete (it does not know every relation between radicals of products).  A "not zero" verdict on an expression with root atoms
+    is therefore probed numerically (80 digits, generic points of three shapes): if the expression vanishes at every point where it can be
+    evaluated, the verdict is withdrawn (Undecided: normal form incomplete) instead of being reported as a difference.  The probe never
+    turns a verdict into "zero" or "not zero" here (see quick_nonzero for the one sound shortcut it offers)"""
     r = _is_zero_rel(p)
     if r or not PROBE[0]:
         return r
     p = P(p)
     if not _pow_gens(p):
         return False
-    if _probe_vanishes(p):
+    if _probe(p) == "zero":
         raise Undecided("normal form incomplete: structurally distinct radicals, numerically zero at generic points")
     return False
 
 
-def _probe_vanishes(p):
+def quick_nonzero(p):
+    """cheap and sound: True only if p is certainly not identically zero (a non-empty polynomial without root / inverse atoms, or a value
+    far from zero at a generic point).  False means "not decided here" -- use is_zero"""
+    p = P(p)
+    if not p.t:
+        return False
+    if _exp_gens(p):
+        return False
+    if not _pow_gens(p):
+        return True
+    return _probe(p) == "nonzero"
+
+
+def _probe(p):
+    """'nonzero' (far from zero at one generic point), 'zero' (vanishes at >= 2 points where it can be evaluated) or None (cannot tell)"""
     import decimal
 
     syms = sorted(g for g in all_syms(p) if g not in NUMERIC)
@@ -1178,18 +1193,15 @@ def _probe_vanishes(p):
                 v = Fraction(1 + h, 23 + trial)
             point[g] = ctx.divide(D(v.numerator), D(v.denominator))
         try:
-            val = const_decimal(p, prec=80, point=point)
-            scale = D(0)
-            for m, c in p.t.items():
-                scale = ctx.add(scale, abs(const_decimal(Poly({m: c}), prec=80, point=point)))
+            val, scale = const_decimal(p, prec=80, point=point, with_scale=True)
         except (Undecided, decimal.DecimalException, ZeroDivisionError, OverflowError):
             continue
         if scale == 0:
             continue
         if abs(val) > scale * D(10) ** -55:
-            return False
+            return "nonzero"
         hits += 1
-    return hits >= 2
+    return "zero" if hits >= 2 else None
 
 
 def _is_zero_rel(p):
@@ -1566,7 +1578,7 @@ def decimal_sincos(x, ctx):
     return s, c
 
 
-def const_decimal(p, prec=80, point=None):
+def const_decimal(p, prec=80, point=None, with_scale=False):
     """value of a *constant* ring element (no symbols; roots of constants, pow / Abs / Exp / Log / Sqrt atoms of constants allowed) as a
     Decimal with `prec` significant digits; Undecided for anything else.  Used only to *separate* two constants (a difference that is
     far from zero at 80 digits is not zero)."""
@@ -1584,6 +1596,9 @@ def const_decimal(p, prec=80, point=None):
         if e.denominator == 1:
             return ctx.power(b, D(e.numerator))
         if b < 0:
+            if point is not None:
+                # probing at a generic point: the ring's atom (-B)**(k/n) has no agreed real value where B > 0 -- this point decides nothing
+                raise Undecided("fractional power of a negative value at the probe point")
             if e.denominator % 2 == 1:
                 r = ctx.power(-b, dfr(e))
                 return -r if e.numerator % 2 else r
@@ -1630,13 +1645,20 @@ def const_decimal(p, prec=80, point=None):
         cache[g] = v
         return v
 
-    def val(q):
+    def val(q, scale=None):
         tot = D(0)
         for m, c in P(q).t.items():
             t = dfr(c)
             for g, e in m:
                 t = ctx.multiply(t, dpow(gen(g), e))
             tot = ctx.add(tot, t)
+            if scale is not None:
+                scale[0] = ctx.add(scale[0], abs(t))
         return tot
 
+    if with_scale:
+        # the value and the sum of the absolute values of the top-level terms (one pass, one cache)
+        sc = [D(0)]
+        v = val(p, sc)
+        return v, sc[0]
     return val(p)
